@@ -1,7 +1,8 @@
 /-
 Proofs/AgreeFnInterface.lean — the string-level entry points of src/interface/mod.rs as translated on this
 run (`Generated/FnInterface.lean`) equal the Model's `runString` (`Model/Interface.lean`), for all
-source strings and states. `token::tokenize` is a boundary call (mapped to the Model's `tokenize`);
+source strings and states. `token::tokenize` is a TRANSLATED callee too (`Gen.tokenize`, fuel-indexed; called with the fuel
+`Rs.fuel_chars string`, replaced by the Model's `tokenize` with `fn_tokenize_fuel_chars`);
 `tree::tokens_to_operator_tree` is a TRANSLATED callee (`Gen.tokens_to_operator_tree`, `Option`-valued: it contains
 loops), called through `Rs.converged`, and replaced by the Model's `tokensToOperatorTree` with
 `fn_tokens_to_operator_tree_agree` (Proofs/AgreeFnTokensToTree.lean); `build_operator_tree` itself is translated.
@@ -11,6 +12,7 @@ import EvalexprVerif.Generated.FnInterface
 import EvalexprVerif.Translate.Lemmas
 import EvalexprVerif.Proofs.AgreeFnTree
 import EvalexprVerif.Proofs.AgreeFnTokensToTree
+import EvalexprVerif.Proofs.AgreeFnLexer
 import EvalexprVerif.Model.Interface
 
 set_option linter.unusedSimpArgs false
@@ -18,8 +20,13 @@ set_option linter.unusedSimpArgs false
 namespace Evalexpr.AgreeFn
 open Evalexpr
 
+/-- the interface functions call the fuel-indexed `Gen.tokenize` with `Rs.fuel_chars string` = length + 1 (table `FUEL_CALLS`): by
+`fn_tokenize_agree` that fuel suffices, the call is the Model's `tokenize` -/
+theorem fn_tokenize_fuel_chars (s : Str) : Gen.tokenize (Rs.fuel_chars s) s = tokenize s :=
+  fn_tokenize_agree s _ (Nat.lt_succ_self _)
+
 theorem fn_build_operator_tree_agree (src : Str) : Gen.build_operator_tree src = buildOperatorTree src := by
-  simp only [Gen.build_operator_tree, buildOperatorTree, fn_tokens_to_operator_tree_agree, Rs.converged_some]
+  simp only [Gen.build_operator_tree, buildOperatorTree, fn_tokens_to_operator_tree_agree, Rs.converged_some, fn_tokenize_fuel_chars]
   generalize tokenize src = t
   rcases t with _ | ts <;> rfl
 
@@ -31,7 +38,7 @@ theorem project_value (r : Res Value) : Kind.value.project r = r := by
 /-- the untyped string-level evaluators: tokenize, build (early return on error), evaluate the tree -/
 macro "untyped_string" : tactic => `(tactic| (
   simp only [Gen.eval_with_context, Gen.eval_with_context_mut, Gen.eval, Rs.call_fresh, runString,
-    fn_build_operator_tree_agree, buildOperatorTree, fn_tokens_to_operator_tree_agree, Rs.converged_some,
+    fn_build_operator_tree_agree, buildOperatorTree, fn_tokens_to_operator_tree_agree, Rs.converged_some, fn_tokenize_fuel_chars,
     runTree, runTreeUntyped, project_value, fn_HashMapContext_new_agree, St.fresh]
   generalize tokenize _ = t
   rcases t with _ | ts
